@@ -53,7 +53,10 @@ manifest = {
     "not_applicable": na,
     "notes": ("All checks: cwd /verif, honour VERIF_SEED / VERIF_TIER, run 16 worker processes, exit 0 held / 1 "
               "VIOLATION / 2 INCONCLUSIVE (a reach counter is zero or a worker failed). Genuine defects of the "
-              "pinned tree were repaired by 'fix:' commits in /repo and are listed in known_findings.json."),
+              "pinned tree were repaired by 'fix:' commits in /repo and are listed in known_findings.json (status "
+              "fixed); the open entries there (C03, C07, C10) are the residue of one numerical family - the LP solver "
+              "answering wrongly on systems that mix coefficients from 1e-4 to 1e6 - and are attached to a violation "
+              "only when re-solving the LPs of that very call exactly establishes it (DESIGN.md 2.7)."),
 }
 with open(os.path.join(HERE, "MANIFEST.json"), "w") as f:
     json.dump(manifest, f, indent=1)
